@@ -22,6 +22,7 @@ type zvAbs struct {
 // on ITS path, and with level-wide fills every combination (2|3)^3 along a path occurs, at every
 // key position.
 var zvFill []int
+var zvRootM int
 
 // zvTombAt: -2 = every leaf entry has a symbolic tombstone flag (default); otherwise the flags are
 // concrete and only the leaf entry with this index (in key order; -1 = none) is a tombstone.
@@ -62,6 +63,8 @@ func zvGenNode(h int, isRoot bool, prev **int, a *zvAbs) (*node[int, int], int) 
 	}
 	if zvFill != nil && !isRoot {
 		n.m = zvFill[h]
+	} else if zvFill != nil && isRoot && zvRootM > 0 {
+		n.m = zvRootM
 	} else {
 		n.m = 2 + vrt.Choice(2)
 	}
@@ -79,9 +82,20 @@ func zvGenNode(h int, isRoot bool, prev **int, a *zvAbs) (*node[int, int], int) 
 
 func zvTree() (*BTree[int, int], *zvAbs) {
 	h := vrt.Choice(vrt.Pick(1, 2) + 1)
-	zvFill = nil
+	zvFill, zvRootM = nil, 0
 	if h == 2 {
-		zvFill = []int{2 + vrt.Choice(2), 2 + vrt.Choice(2), 0}
+		// (leaf fill, middle fill) in {(2,2), (3,2), (3,3)} under a 2-entry root: 8, 12 and 18 keys; a
+		// full leaf under a 2-entry middle node splits once, under a full middle node the split
+		// cascades into the root. (A 3-entry root over full nodes has 27 keys and does not finish.)
+		switch vrt.Choice(3) {
+		case 0:
+			zvFill = []int{2, 2, 0}
+		case 1:
+			zvFill = []int{3, 2, 0}
+		default:
+			zvFill = []int{3, 3, 0}
+		}
+		zvRootM = 2
 	}
 	a := &zvAbs{}
 	var prev *int
